@@ -16,6 +16,8 @@ on the implementation's observed results. Line kinds (see harness/wb/{trace,prop
   members = `-` or comma-separated `<xkey>:<xval>`
 -/
 import Otel.C03.Spec
+import Otel.C03.SpecDeep
+import Otel.C03.MainDeep
 open Otel Otel.Wire Otel.C03
 
 namespace Otel.C03.Drv
@@ -163,9 +165,10 @@ def stepLine (_ : Unit) (toks : List String) : Unit × Option Verdict :=
          | ["ok", n, s, mem, rp] =>
            (match n.toNat?, parseHex s, parseMembers mem with
             | some len, some sb, some members =>
-              tsStrOK sb && decide (TSInv members) && W3C.decodeTS sb == members && len == members.length && rp == s
+              tsStrOK sb && decide (TSInv members) && W3C.decodeTS sb == members && len == members.length && rp == s &&
+              W3C.tracestateAccepts hb && W3C.tracestateDecode hb == members
             | _, _, _ => false)
-         | ["err"] => true
+         | ["err"] => !W3C.tracestateAccepts hb
          | _ => false
        let br := match m with
          | some ts => if ts.isEmpty then "parse-empty" else if ts.length == 32 then "parse-ok32" else "parse-ok"
@@ -206,8 +209,9 @@ def stepLine (_ : Unit) (toks : List String) : Unit × Option Verdict :=
          | some sc => s!"{hexOf sc.tid} {hexOf sc.sid} {sc.flags.toNat}"
          | none => "none"
        let spec := match groups obs with
-         | [["none"], ["none"]] => true
+         | [["none"], ["none"]] => !W3C.traceparentAccepts h
          | [[tid, sid, fl, rem, tss, itp, its], [tid0, sid0, fl0]] =>
+           W3C.traceparentAccepts h &&
            (match parseHex tid, parseHex sid, fl.toNat?, parseHex tss, parseHex itp with
             | some tb, some sb, some f, some tsb, some itpb =>
               idsValid tb sb && f ≤ 1 && rem == "1" && W3C.traceparentOK itpb && acceptedOK h tb sb &&
@@ -252,6 +256,6 @@ def stepLine (_ : Unit) (toks : List String) : Unit × Option Verdict :=
          verdict (s!"{itp} {its} | {ms1}") obs spec (valid && true)
            (if !valid then "rt-invalid" else if members.isEmpty then "rt-nots" else if members.length ≥ 32 then "rt-ts32" else "rt-ts")
      | _, _, _, _ => none)
-  | _ => none)
+  | _ => stepDeep toks)
 
 def main : IO Unit := Wire.run () stepLine
